@@ -8,7 +8,7 @@
     not the property; the general [_partial] statements they sample are
     written out in the comments). *)
 From InvokeVerif Require Import Model.CollModel Spec.C10Spec Corr.C10Corr
-     Proofs.CollStrings Proofs.C17_path Proofs.C10_build Proofs.C10_names Proofs.C10_flat Proofs.C10_deep.
+     Proofs.CollStrings Proofs.C17_path Proofs.C10_build Proofs.C10_names Proofs.C10_flat Proofs.C10_deep Proofs.C10_parser.
 
 (** Underscore/dash normalisation is consistent: idempotent, the later of two
     normalisations wins (so a name passed down through collections with
@@ -68,7 +68,47 @@ Theorem C10_cli_iff_lookup_refuted_binding_alias :
                 listing_ok c 2 (model_rows c 2) = false.
 Proof. exact refuted_binding_alias. Qed.
 
-(** Proved form, for ALL flat namespaces (a root collection holding any number
+(** Flagship, proved form, ANY DEPTH.  For EVERY built tree inside the guard
+    and EVERY token, the observations the model predicts satisfy the executable
+    judgement [name_ok]: the token is accepted by the parser built from
+    [to_contexts] iff it is a canonical dotted name that [name in collection]
+    resolves; an accepted token runs -- through the executor's second lookup
+    of the context's primary name -- the very task [collection[token]]
+    returns; a token that is not accepted runs nothing.
+    Guard [deep_guard]: one auto-dash setting throughout (else F-C10d);
+    bindings distinct and canonical ([ns_wf], [ns_canon]: build invariants);
+    in every collection the alias table holds exactly the declared aliases
+    (excludes F-C10b); no collection other than the root has a sub-collection
+    as default (excludes F-C10a); configurations type-consistent along every
+    path; the flattened names pairwise distinct.  What is missing from full
+    strength is exactly F-C10a, F-C10b and mixed auto-dash settings. *)
+Theorem C10_cli_iff_lookup_partial : forall c n,
+  deep_guard c = true -> name_ok (c_auto_dash c) n (model_nobs c n) = true.
+Proof. exact deep_names_agree. Qed.
+
+(** Ingredients, each general: [task_names] is plain prefixing/appending ... *)
+Theorem C10_task_names_is_flattening_partial : forall ad c,
+  uniform ad c = true -> ns_canon c = true -> NoDup (map fst (tn c)) -> task_names c = tn c.
+Proof. exact task_names_tn. Qed.
+
+(** ... every flattened name (primary, alias, default shortcut) is resolved by
+    the reference walk to the task of its entry ... *)
+Theorem C10_flattened_names_resolve_partial : forall ad c,
+  uniform ad c = true -> ns_wf c = true -> ns_canon c = true -> alias_table_own c = true ->
+  forall pa, In pa (tn c) ->
+  exists t, forall n, In n (fst pa :: snd pa) ->
+    exists cfgs, ref_path c (split_char "." n) = Some (t, cfgs).
+Proof. exact entries_resolve. Qed.
+
+(** ... and every non-empty name the reference walk resolves is a flattened name. *)
+Theorem C10_reference_names_are_flattened_partial : forall ad c root,
+  uniform ad c = true -> ns_wf c = true -> ns_canon c = true -> alias_table_own c = true ->
+  no_dsub_below root c = true ->
+  forall segs t cfgs, segs <> [] -> ref_path c segs = Some (t, cfgs) ->
+  exists pa, In pa (tn c) /\ In (join "." segs) (fst pa :: snd pa).
+Proof. exact ref_in_tn. Qed.
+
+(** The same agreement for ALL flat namespaces (a root collection holding any number
     of tasks with any number of declared aliases, no sub-collections) and ALL
     tokens: the token is accepted by the parser built from [to_contexts] iff it
     is a canonical name that [name in collection] resolves; an accepted token
@@ -76,10 +116,10 @@ Proof. exact refuted_binding_alias. Qed.
     the very task [collection[token]] returns; anything else runs nothing.
     Guard [flat_guard]: no sub-collections; task names and declared aliases
     pairwise distinct and canonical; the alias table holds exactly the
-    declared aliases (this excludes F-C10b).  What is missing from full
-    strength: sub-collections (sampled by the bounded sweep below; F-C10a
-    lives there) and binding-level aliases (F-C10b, refuted above). *)
-Theorem C10_cli_iff_lookup_partial : forall cn tasks aliases dflt ad cfg n,
+    declared aliases (this excludes F-C10b).  (Proved first; subsumed by the
+    any-depth theorem except that it needs no distinctness of the flattened
+    names beyond the declared ones.) *)
+Theorem C10_cli_iff_lookup_flat_partial : forall cn tasks aliases dflt ad cfg n,
   flat_guard (Coll cn tasks aliases [] dflt ad cfg) = true ->
   name_ok ad n (model_nobs (Coll cn tasks aliases [] dflt ad cfg) n) = true.
 Proof. intros. apply flat_names_agree. assumption. Qed.
@@ -95,9 +135,7 @@ Proof. intros. apply flat_names_agree. assumption. Qed.
     remainder, F-C10d lives there), bindings distinct and canonical ([ns_wf],
     [ns_canon]: invariants of build, C10_build_canonical), configurations
     type-consistent along every path ([compat_down]; otherwise lookup raises
-    AmbiguousMergeError).  The other half -- the parser registry built from
-    task_names accepts exactly these names minus F-C10a/F-C10b -- is proved
-    for flat namespaces above and sampled by the sweep below. *)
+    AmbiguousMergeError). *)
 Theorem C10_lookup_iff_reference_partial : forall c n t,
   uniform (c_auto_dash c) c = true -> ns_wf c = true -> ns_canon c = true ->
   compat_down [] c = true -> canonical (c_auto_dash c) n = true ->
@@ -114,11 +152,8 @@ Proof. exact contains_iff_reference. Qed.
     no binding-level aliases) the agreement holds on every tree of the sweep:
     128 trees (root > [top] + sub > [my_task (own alias?, default?)] + in_ner >
     [deep]; every auto-dash combination; root default on/off) x 48 candidate
-    tokens in every spelling.  A TEST: the general statement
-      forall s c n, build s = Ok c -> script_clean s = true ->
-        no_dsub_below true c = true -> no_binding_aliases c = true ->
-        name_ok (c_auto_dash c) n (model_nobs c n) = true
-    is not proved. *)
+    tokens in every spelling, MIXED auto-dash settings included (which the
+    general theorem above excludes).  A TEST. *)
 Theorem C10_cli_iff_lookup_bounded_128 :
   names_sweep (sweep_scripts false) = true /\
   List.length (sweep_scripts false) = 128 /\ List.length names_vocab = 48.
@@ -212,3 +247,19 @@ Proof.
   repeat split; try (vm_compute; reflexivity).
   eexists. vm_compute. reflexivity.
 Qed.
+
+(** Non-vacuity of [deep_guard]: three levels, declared aliases, default tasks
+    at two levels, configured collections. *)
+Example C10_example_deep_guard :
+  exists c,
+    build (ISub None true (Node [("k", Node [("x", Leaf (VInt 0))])])
+                [ITask (mkTask 1 "top" ["t_al"] false) None [] None;
+                 ISub (Some "sub") true (Node [("k", Node [("y", Leaf (VInt 1))])])
+                      [ITask (mkTask 2 "my_task" ["al_x"] false) None [] (Some true);
+                       ISub (Some "in_ner") true (Node [])
+                            [ITask (mkTask 3 "deep" [] false) None [] (Some true)] None false]
+                      None true] None false) = Ok c /\
+    deep_guard c = true /\
+    tn c = [("top", ["t-al"]); ("sub.my-task", ["sub.al-x"; "sub"]);
+            ("sub.in-ner.deep", ["sub.in-ner"])].
+Proof. eexists. split; [vm_compute; reflexivity|]. split; vm_compute; reflexivity. Qed.
